@@ -19,7 +19,8 @@ P = 'C18'
 BUDGETS = {'C18': (50, 1200, 40)}
 LEVELS = {'C18': 'exploration'}
 WALL_LIMIT = {('C18', 'quick'): 180, ('C18', 'thorough'): 180}
-PROBES = {'C18': web.PROBES['C18'] + ['crawl_level', 'crawl.perpetual_5xx', 'crawl.reset', 'crawl.refused', 'crawl.stall', 'crawl.redirect_loop',
+SHRINK = {'C18': (45, 60)}
+PROBES = {'C18': web.PROBES['C18'] + ['crawl_level', 'crawl.robots_perpetual_5xx', 'crawl.robots_reset', 'crawl.robots_ok', 'crawl.perpetual_5xx', 'crawl.reset', 'crawl.refused', 'crawl.stall', 'crawl.redirect_loop',
                                      'crawl.tries_exhausted', 'crawl.waitretry', 'crawl.retry_connrefused', 'crawl.concurrency>1']}
 INFO = {'C18': dict(web.INFO['C18'], rule=web.INFO['C18']['rule'] + ' ; crawl level: site with 1..3 perpetually failing URLs (kind drawn) x --tries '
                     '{1,2,3,5} x --max-redirect x --retry-connrefused x --waitretry x concurrency; visits are identified by the item try count '
@@ -60,7 +61,13 @@ def run(tape, prop, tier):
             r.probes['crawl.' + kind] += 1
             r.faults['crawl.' + kind] += 1
         site.finalize()
-        opts = {'robots': False, 'recursive': True, 'level': 'inf', 'tries': tries, 'max_redirect': max_redirect}
+        # robots.txt itself may be the thing that keeps failing
+        robots_mode = tape.choice((None, None, 'perpetual_5xx', 'reset', 'ok'), 'robots.mode')
+        if robots_mode:
+            r.probes['crawl.robots_' + robots_mode] += 1
+            if robots_mode != 'ok':
+                r.faults['crawl.robots_' + robots_mode] += 1
+        opts = {'robots': bool(robots_mode), 'recursive': True, 'level': 'inf', 'tries': tries, 'max_redirect': max_redirect}
         extra = ['--timeout', '30', '--waitretry', str(waitretry)]
         if retry_refused:
             extra.append('--retry-connrefused')
@@ -95,6 +102,17 @@ def run(tape, prop, tier):
                         loop_state[res.url] = n + 1
                         server.send(conn, 302, 'Found', [('Location', res.path + '?hop=%d' % n), ('Content-Type', 'text/plain')], b'again')
                 server.behaviour[(res.origin.key(), res.target)] = beh
+            if robots_mode:
+                def rb(conn, entry, rs):
+                    entry['robots'] = True
+                    if robots_mode == 'perpetual_5xx':
+                        server.send(conn, 503, 'Busy', [('Content-Type', 'text/plain')], b'busy')
+                    elif robots_mode == 'reset':
+                        conn.reset()
+                    else:
+                        server.send(conn, 200, 'OK', [('Content-Type', 'text/plain')], b'User-agent: *\nDisallow:\n')
+                for o in site.origins:
+                    server.behaviour[(o.key(), '/robots.txt')] = rb
             # every query variant of a redirect loop resource loops too
             orig_lookup = site.lookup
 
@@ -122,7 +140,7 @@ def run(tape, prop, tier):
                         server.behaviour[(origin.key(), target)] = beh
                 return orig_serve(conn, origin, raw, ctx)
             server.serve = serve
-        out = crawl.run_app(tape, r, site, argv, concurrency, sandbox, setup=setup, budget_vtime=5_000_000.0, max_callbacks=600_000)
+        out = crawl.run_app(tape, r, site, argv, concurrency, sandbox, setup=setup, budget_vtime=5_000_000.0, max_callbacks=40_000)
         rows = crawl.read_rows(dbpath)
         server = out['server']
         if out.get('hang'):
